@@ -198,6 +198,28 @@ type world struct {
 	rebonded   map[int]bool
 	reported   map[string]bool
 	unbonded   map[int]bool
+	// round 3
+	votedH     map[string]map[uint64]uint64 // oracle address -> event nonce -> id (content + reported height) of the claim it voted for
+	curH       uint64                       // id of the claim the current op submits
+	curClaim   bool
+	lostRefund map[uint64]int64 // refund records (outgoing bridge calls) of event nonces that a genesis export/import dropped
+	saved      *savedWorld
+}
+
+// savedWorld: what `save` remembers (small-scope enumeration): the store branch point and the monitor state
+type savedWorld struct {
+	ctx         sdk.Context
+	prevLo      uint64
+	observedAt  map[uint64]string
+	executed    map[uint64]bool
+	reported    map[string]bool
+	votedH      map[string]map[uint64]uint64
+	hashID      map[string]int
+	specs       map[[2]uint64]claimSpec
+	touched     map[common.Address]bool
+	touchedCode map[common.Address]bool
+	exCache     string
+	exDirty     bool
 }
 
 func keeperOf(s *hx.Suite, chain string) crosschainkeeper.Keeper {
@@ -217,7 +239,7 @@ func newWorld(t *testing.T, s *hx.Suite, out *hx.Out, rng *rand.Rand, chain stri
 		gov:      authtypes.NewModuleAddress(govtypes.ModuleName).String(),
 		oracleID: map[string]int{}, bridgerID: map[string]int{}, extID: map[string]int{}, hashID: map[string]int{},
 		specs: map[[2]uint64]claimSpec{}, observedAt: map[uint64]string{}, executed: map[uint64]bool{},
-		rebonded: map[int]bool{}, reported: map[string]bool{}, unbonded: map[int]bool{}, touched: map[common.Address]bool{}, touchedCode: map[common.Address]bool{}, former: map[int][]int{}, pr: sdk.DefaultPowerReduction, multiple: mult}
+		rebonded: map[int]bool{}, reported: map[string]bool{}, unbonded: map[int]bool{}, votedH: map[string]map[uint64]uint64{}, lostRefund: map[uint64]int64{}, touched: map[common.Address]bool{}, touchedCode: map[common.Address]bool{}, former: map[int][]int{}, pr: sdk.DefaultPowerReduction, multiple: mult}
 	w.threshold = w.pr.MulRaw(thrUnits)
 	rich := sdk.NewCoin(fxtypes.DefaultDenom, w.pr.MulRaw(100_000_000))
 	poor := -1 // one oracle account that can pay the minimum stake twice but not more: larger bonds / add-delegates fail in the bank
@@ -526,7 +548,7 @@ func (w *world) effects() map[uint64]int64 {
 		case "p":
 			b := w.s.App.BankKeeper.GetBalance(ctx, sp.recv, fxtypes.DefaultDenom).Amount
 			if b.IsPositive() {
-				res[k[0]] += b.QuoRaw(int64(1 + k[1])).Int64()
+				res[k[0]] += b.QuoRaw(int64(1 + k[1]%4)).Int64()
 			}
 		case "c":
 			if !w.touched[sp.contract] {
@@ -547,6 +569,9 @@ func (w *world) effects() map[uint64]int64 {
 		}
 		return false
 	})
+	for n, c := range w.lostRefund {
+		res[n] += c
+	}
 	return res
 }
 
@@ -695,6 +720,27 @@ func (w *world) monitors(before pre) {
 				}
 			}
 			req := total.MulRaw(66).QuoRaw(100)
+			// ... "have each voted for that very event": the voters whose own claim for this nonce is the claim that takes effect
+			// (same content AND same reported external height as the claim of the op that crossed the bar)
+			if w.curClaim {
+				same := sdkmath.ZeroInt()
+				differ := 0
+				for v := range seen {
+					if hv, ok := w.votedH[v][a.nonce]; ok && hv == w.curH {
+						if o, found := w.k.GetOracle(ctx, sdk.MustAccAddressFromBech32(v)); found {
+							same = same.Add(w.power(o))
+						}
+					} else {
+						differ++
+					}
+				}
+				if differ > 0 && same.LT(req) {
+					w.violate("C02", fmt.Sprintf("attestation observed without a 66%% quorum of oracles that voted for that very event: %d of its %d voters claimed something else for event nonce %d (other content or other external block height) and were tallied together; power of the voters of the event that took effect %s < required %s of recorded total %s", differ, len(seen), a.nonce, same, req, total))
+				}
+				if differ == 0 {
+					w.out.Count("observed:all-voters-same-event")
+				}
+			}
 			if sum.LT(req) {
 				cls := "attestation observed without a 66% quorum of distinct registered oracles"
 				if dup {
@@ -733,7 +779,7 @@ func (w *world) monitors(before pre) {
 // claims
 
 func (w *world) spec(n, h uint64, wantKind string) claimSpec {
-	k := [2]uint64{n, h}
+	k := [2]uint64{n, h % 4} // the content of a claim is h%4; h/4 only shifts the external block height it reports
 	if sp, ok := w.specs[k]; ok {
 		return sp
 	}
@@ -758,9 +804,14 @@ func (w *world) spec(n, h uint64, wantKind string) claimSpec {
 	return sp
 }
 
-func (w *world) mkClaim(n, h uint64, sp claimSpec, bridger string) crosschaintypes.ExternalClaim {
-	ext := 1000 + n
+func (w *world) mkClaim(n, hid uint64, sp claimSpec, bridger string) crosschaintypes.ExternalClaim {
+	ext := 1000 + n + hid/4 // a bridger that saw the event at another external height (lagging node, re-org) reports another event
+	h := hid % 4
 	switch {
+	case sp.kind == "r":
+		// result of an outgoing bridge call that does not exist: parked like the others, its deferred handler fails
+		return &crosschaintypes.MsgBridgeCallResultClaim{ChainName: w.chain, BridgerAddress: bridger, EventNonce: n, BlockHeight: ext,
+			Nonce: 900000 + n, TxOrigin: w.sender, Success: h%2 == 0, Cause: fmt.Sprintf("%02x", h)}
 	case sp.kind == "p":
 		token := sp.token // unknown token: the deferred handler fails
 		if h%2 == 0 {
@@ -855,7 +906,23 @@ func (w *world) opClaim(wrapper, inner int, n, h uint64, kind string) string {
 	}
 	before := w.snapshot()
 	nAtts := len(w.atts())
+	w.curH, w.curClaim = h, true
+	defer func() { w.curClaim = false }()
 	res, _ := w.route(&crosschaintypes.MsgClaim{ChainName: w.chain, BridgerAddress: wa.String(), Claim: anyv})
+	if res == "ok" && found {
+		m := w.votedH[oa.String()]
+		if m == nil {
+			m = map[uint64]uint64{}
+			w.votedH[oa.String()] = m
+		}
+		if old, ok := m[n]; ok && old != h {
+			w.violate("C01", fmt.Sprintf("oracle voted for two different claims of one event nonce: oracle %d nonce %d", w.oid(oa.String()), n))
+		}
+		m[n] = h
+		if h >= 4 {
+			w.out.Count("claim:accepted-with-deviating-external-height")
+		}
+	}
 	if len(w.atts()) < nAtts {
 		w.out.Count("claim:pruned-attestations")
 	}
@@ -903,7 +970,7 @@ func (w *world) opClaim(wrapper, inner int, n, h uint64, kind string) string {
 	if res == "ok" && wrapper != inner {
 		w.out.Count("claim:accepted-with-wrapper!=inner(in-process)")
 	}
-	w.out.Emit(fmt.Sprintf("claim %d %d %d %d %s %d", wrapper, inner, n, h, sp.kind, 1000+n), res+" "+w.observe())
+	w.out.Emit(fmt.Sprintf("claim %d %d %d %d %s %d", wrapper, inner, n, h, sp.kind, 1000+n+h/4), res+" "+w.observe())
 	w.monitors(before)
 	return res
 }
@@ -1127,12 +1194,20 @@ func (w *world) opExec(root *callNode) string {
 	w.install(root)
 	from := w.caller
 	var err error
+	cctx, write := w.s.Ctx.CacheContext()
 	r := hx.Try(func() error {
-		_, err = w.s.App.EvmKeeper.ApplyContract(w.s.Ctx, from, crosschaintypes.GetAddress(), nil, crosschaintypes.GetABI(), "executeClaim", w.chain, new(big.Int).SetUint64(n))
+		_, err = w.s.App.EvmKeeper.ApplyContract(cctx, from, crosschaintypes.GetAddress(), nil, crosschaintypes.GetABI(), "executeClaim", w.chain, new(big.Int).SetUint64(n))
 		return nil
 	})
+	if !strings.HasPrefix(r, "panic") {
+		write()
+	}
 	res := "ok"
 	switch {
+	case strings.HasPrefix(r, "panic") && pending && strings.Contains(r, "bridge call not found"):
+		// BridgeCallResultHandler panics for an unknown outgoing bridge call; a transaction recovers it and fails as a whole
+		res = "err:exec-failed"
+		w.out.Count("exec:handler-panic-recovered(result of unknown bridge call)")
 	case strings.HasPrefix(r, "panic"):
 		res = r
 	case err != nil && !pending:
@@ -1219,6 +1294,12 @@ func (w *world) runLine(line string) {
 		}
 	case f[0] == "exec" && len(f) >= 2:
 		w.opExec(&callNode{n: atou(f[1]), o: 'o'})
+	case f[0] == "genesis":
+		w.opGenesis()
+	case f[0] == "save":
+		w.opSave()
+	case f[0] == "load":
+		w.opLoad()
 	}
 }
 
@@ -1366,6 +1447,8 @@ func (w *world) randKind(n, h uint64) string {
 		return "s:" + strings.Join(ms, ",")
 	case 3, 4, 5:
 		return "c"
+	case 6:
+		return "r"
 	}
 	return "p"
 }
@@ -1403,6 +1486,9 @@ func (w *world) genTree(n uint64) *callNode {
 				node.o = 'f'
 				return node
 			}
+		case *crosschaintypes.MsgBridgeCallResultClaim:
+			node.o = 'f'
+			return node
 		default:
 			return node
 		}
@@ -1498,6 +1584,10 @@ func (w *world) randomClaim() {
 	case 1:
 		h = uint64(w.rng.Intn(4))
 	}
+	// the same content seen at another external block height (a different event as far as the vote is concerned)
+	if w.rng.Intn(7) == 0 {
+		h += 4
+	}
 	wrapper := inner
 	if w.rng.Intn(25) == 0 {
 		wrapper = bridgerBase + w.rng.Intn(len(w.bridgers))
@@ -1572,6 +1662,18 @@ func (w *world) randomOp() {
 	r := w.rng.Intn(100)
 	if w.rng.Intn(60) == 0 {
 		w.scenarioRebond()
+		return
+	}
+	switch w.rng.Intn(150) {
+	case 0, 1:
+		w.scenarioGenesis()
+		return
+	case 2:
+		w.scenarioStaleTotal()
+		return
+	case 3:
+		res := w.opGenesis()
+		w.out.Count("genesis(random):" + res)
 		return
 	}
 	switch {
@@ -1750,6 +1852,7 @@ func runRandom(t *testing.T, s *hx.Suite, out *hx.Out, rng *rand.Rand, chain str
 	frac := []string{"0.8", "0.5", "0.1", "0.001", "0"}[rng.Intn(5)]
 	window := []uint64{3, 5, 30000}[rng.Intn(3)]
 	w := newWorld(t, s, out, rng, chain, nO, thr, mult, frac, window)
+	out.Count("chain:" + chain)
 	// set-up: governance lists (most of) the oracles, most of them bond; powers at a truncation boundary half of the time
 	var all []int
 	for i := range w.oracles {
@@ -2024,6 +2127,15 @@ func TestC01(t *testing.T) {
 
 	chains := []string{"eth", "bsc", "tron"}
 	runLongHistory(t, hx.NewSuite(t, 1), out, rng, chains[rng.Intn(3)])
+	// small-scope exhaustive enumeration: all sequences of length 3 over the 16-letter alphabet; the quick tier runs one
+	// sixth of them (chosen by the seed), the thorough tier all of them, on each chain in turn
+	{
+		parts := hx.N(6, 1)
+		chain := chains[int(seed%3+3)%3]
+		sw := newWorld(t, hx.NewSuite(t, 1), out, rng, chain, 3, 1, 100, "0.1", 30000)
+		out.Count("small-scope:chain:" + chain)
+		runSmallScope(sw, 3, int((seed%int64(parts)+int64(parts))%int64(parts)), parts)
+	}
 	nSeq := hx.N(300, 2400)
 	for it := 0; it < nSeq; {
 		s := hx.NewSuite(t, 1+rng.Intn(3))
